@@ -406,28 +406,27 @@ structure DurRaw where
   s : Option NumTok
   deriving DecidableEq, Repr
 
-/-- `ISO8601_PERIOD_REGEX.match` (`$` also matches before one final newline) -/
-def matchPeriod (s0 : Str) : Option DurRaw :=
-  let s := if lastChar? s0 == some '\n' then dropLast s0 else s0
-  let (neg, s1) :=
-    match s with
-    | '-' :: r => (true, r)
-    | '+' :: r => (false, r)
-    | r => (false, r)
-  match s1 with
-  | 'P' :: r =>
-    if r.isEmpty then none            -- `P(?!\b)`: a word character must follow
-    else
-      match fieldsInOrder ['Y', 'M', 'W', 'D'] r with
-      | ([y, mo, w, d], r1) =>
-        match r1 with
-        | [] => some ⟨neg, y, mo, w, d, none, none, none⟩
-        | 'T' :: r2 =>
-          match fieldsInOrder ['H', 'M', 'S'] r2 with
-          | ([h, mi, sec], []) => some ⟨neg, y, mo, w, d, h, mi, sec⟩
-          | _ => none
+/-- the part of `ISO8601_PERIOD_REGEX` after `P` (`P(?!\b)`: a word character must follow) -/
+def periodBody (neg : Bool) (r : Str) : Option DurRaw :=
+  if r.isEmpty then none
+  else
+    match fieldsInOrder ['Y', 'M', 'W', 'D'] r with
+    | ([y, mo, w, d], r1) =>
+      match r1 with
+      | [] => some ⟨neg, y, mo, w, d, none, none, none⟩
+      | 'T' :: r2 =>
+        match fieldsInOrder ['H', 'M', 'S'] r2 with
+        | ([h, mi, sec], []) => some ⟨neg, y, mo, w, d, h, mi, sec⟩
         | _ => none
       | _ => none
+    | _ => none
+
+/-- `ISO8601_PERIOD_REGEX.match` (`$` also matches before one final newline) -/
+def matchPeriod (s0 : Str) : Option DurRaw :=
+  match (if lastChar? s0 == some '\n' then dropLast s0 else s0) with
+  | '-' :: 'P' :: r => periodBody true r
+  | '+' :: 'P' :: r => periodBody false r
+  | 'P' :: r => periodBody false r
   | _ => none
 
 def tokInt : Option NumTok → Nat
